@@ -298,11 +298,14 @@ async def _run_app(
 
     runner = AppRunner(app, **kwargs)
 
-    await runner.setup()
-
     sites: list[BaseSite] = []
 
     try:
+        # setup() runs the startup code of the cleanup contexts: keep it inside
+        # the try block so that contexts that did start are torn down again
+        # when a later one (or an on_startup handler) fails.
+        await runner.setup()
+
         if host is not None:
             if isinstance(host, str):
                 sites.append(
